@@ -240,7 +240,7 @@ impl Part for DiscoveryPart {
             .boxed()
     }
     fn cases(&self, tier: Tier) -> u64 {
-        tier.pick(20_000, 1_000_000)
+        tier.pick(80_000, 1_000_000)
     }
     fn exec(&self, c: &C02Case, out: &mut CaseOut) -> Result<(), Fail> {
         exec(c, out)
@@ -268,7 +268,7 @@ impl Part for LongRunPart {
         cluster_spec(&p).prop_map(|spec| C02Case { spec, judge_discovery: false }).boxed()
     }
     fn cases(&self, tier: Tier) -> u64 {
-        tier.pick(300, 10_000)
+        tier.pick(600, 10_000)
     }
     fn exec(&self, c: &C02Case, out: &mut CaseOut) -> Result<(), Fail> {
         let spec = &c.spec;
@@ -310,7 +310,7 @@ impl Part for TinyPart {
             .boxed()
     }
     fn cases(&self, tier: Tier) -> u64 {
-        tier.pick(6_000, 300_000)
+        tier.pick(24_000, 300_000)
     }
     fn exec(&self, c: &C02Case, out: &mut CaseOut) -> Result<(), Fail> {
         exec(c, out)
